@@ -35,6 +35,7 @@ type Program struct {
 	modCycleHits int
 	usedIntrinsics map[string]bool
 	missing []string
+	implCache map[string][]implRec
 	mu sync.Mutex
 	contractDiffs []string
 	contractList []*Contract
